@@ -41,7 +41,11 @@ func zzC03Script(n int, small bool) *zzC03PC {
 	pc := &zzC03PC{}
 	srcs := []net.Addr{zzC03Addr{"a:1"}, zzC03Addr{"b:2"}}
 	for i := 0; i < n; i++ {
-		l := zzC03Lens[verifChoice("len", len(zzC03Lens))]
+		lens := zzC03Lens
+		if small && n > 2 {
+			lens = []int{0, 5, 6, 9} // three-packet sequences: fewer lengths
+		}
+		l := lens[verifChoice("len", len(lens))]
 		b := verifBytes("packet", l)
 		if small && l >= 5 {
 			// sequences: few chunks, little padding, two message ids (stated bound)
@@ -57,7 +61,7 @@ func zzC03Script(n int, small bool) *zzC03PC {
 // receive path - frame decoding, padding skip, chunk bookkeeping, reassembly -
 // never panics; what is delivered fits the caller's buffer.
 //
-//verif:harness kind=api unwind=200 preempt=0 bound=one-packet:any-header;sequences<=2(quick)/3(thorough)-packets:chunks<=3,pad<=1,2-message-ids;len∈{0,1,4,5,6,9},2-sources
+//verif:harness kind=api unwind=200 preempt=0 bound=one-packet:any-header;sequences<=2(quick)/3(thorough)-packets:chunks<=3,pad<=1,2-message-ids;len∈{0,1,4,5,6,9}({0,5,6,9}-for-3-packet-sequences),2-sources
 func ZZ_C03_GeckoReceive() {
 	n := 1
 	if verifChoice("sequence", 2) == 1 {
